@@ -1,8 +1,1221 @@
-//! C18 — not implemented yet
-use vcore::{Args, Check};
+//! C18 — A pooled Merkle-map cache never serves data from a superseded generation.
+//!
+//! Code under test: `/repo/internal/mithril-resource-pool/src/resource_pool.rs`, used the way the aggregator's prover
+//! services use it (`compute_cache` = read discriminant, `set_discriminant(d+1)`, `clear`, `give_back_resource(new, d+1)`
+//! × size; proof computation = `acquire_resource` … `give_back_resource_pool_item` or implicit give-back on drop).
+//!
+//! Resources are harness objects tagged with the generation they were built for and carrying a drop hook, so the
+//! harness knows — independently of the pool — whether a returned resource was admitted (still alive, not held by
+//! anybody) or rejected (dropped).
+//!
+//! * Layer 1 (`sequences`): model-based, sequential, on the real crate with the real `std::sync` primitives and a real
+//!   1 ms acquire timeout. Model = FIFO queue of (id, generation) + current generation.
+//! * Layer 2 (`schedules`): the same source file of the working tree compiled a second time (see `build.rs`) with
+//!   `std::sync::{Mutex, Condvar}` replaced by [`shim`] (shuttle's schedule-controlled primitives). 2–4 threads run
+//!   generated scripts; the interleaving is part of the generated case (a vector of scheduling choices consumed by
+//!   [`ScriptSched`]), so a replay file reproduces the exact schedule and proptest shrinks towards few preemptions.
+//!   Time is modelled as "timeouts are long": a blocked `wait_timeout` times out only when no other thread can make a
+//!   step (a timer task that the scheduler runs only when it is the only runnable one). A waiter that is still blocked
+//!   at such a point although the pool is not empty is a lost wake-up.
+//!
+//! Oracle (only what the statement says):
+//!   stale-served        an acquire that started after the refresh to generation G completed returned a resource of an
+//!                       older generation
+//!   stale-readmit:*     a give-back (item / drop / raw with the truthful old discriminant) that started after the
+//!                       refresh to G completed re-admitted a resource of an older generation
+//!   stale-in-pool-at-end  after all threads finished, the pool holds a resource that is not of the last generation
+//!   overfill:*          `count()` > configured size
+//!   lost-wakeup / deadlock  a caller stays blocked although the pool is not empty / nobody can move and nobody can
+//!                       time out
+//! plus, layer 1 only, the documented behaviour of the pool (`doc:*` keys: FIFO order, a current-generation resource
+//! is admitted iff the pool is not full, acquire on an empty pool ends with `AcquireTimeout`).
+
+use std::collections::{BTreeSet, VecDeque};
+use std::sync::atomic::{AtomicU32, Ordering};
+use std::sync::{Arc, Mutex as StdMutex};
+use std::time::Duration;
+
+use mithril_resource_pool::{ResourcePool, ResourcePoolError, ResourcePoolItem};
+use proptest::prelude::*;
+use serde::{Deserialize, Serialize};
+use vcore::{Args, Check, Report, catch, pick_index};
+
+// ------------------------------------------------------------------------------------------------------------------
+// tagged resources
+// ------------------------------------------------------------------------------------------------------------------
+
+/// Harness-side bookkeeping shared with every resource of one case. Plain std primitives: in layer 1 there is one
+/// thread; in layer 2 all shuttle tasks of an execution are coroutines of one OS thread, so nothing here ever blocks.
+#[derive(Default)]
+pub struct Shared {
+    next_id: AtomicU32,
+    dropped: StdMutex<BTreeSet<u32>>,
+}
+
+impl Shared {
+    fn make(self: &Arc<Self>, generation: u64) -> Res {
+        Res { id: self.next_id.fetch_add(1, Ordering::SeqCst), generation, resets: 0, shared: self.clone() }
+    }
+    fn is_dropped(&self, id: u32) -> bool {
+        self.dropped.lock().unwrap().contains(&id)
+    }
+}
+
+/// A pooled resource: `generation` = the cache generation it was built for.
+pub struct Res {
+    id: u32,
+    generation: u64,
+    resets: u32,
+    shared: Arc<Shared>,
+}
+
+impl Drop for Res {
+    fn drop(&mut self) {
+        self.shared.dropped.lock().unwrap().insert(self.id);
+    }
+}
+
+impl mithril_resource_pool::Reset for Res {
+    fn reset(&mut self) -> anyhow::Result<()> {
+        self.resets += 1;
+        Ok(())
+    }
+}
+
+/// Key of a staleness violation: `stale:<what the returned item claimed>:<return path>:<symptom>`.
+/// `item-disc-own`   = the item / call carried the generation of its resource, so the pool had what it needs to reject;
+/// `item-disc-newer` = the item was labelled with a newer discriminant than the generation of the resource inside.
+fn stale_key(symptom: &str, admitted_by: Option<(&str, u64)>, res_gen: u64) -> String {
+    match admitted_by {
+        Some((path, disc)) => {
+            format!("stale:{}:{path}:{symptom}", if disc > res_gen { "item-disc-newer" } else { "item-disc-own" })
+        }
+        None => format!("stale:unattributed:{symptom}"),
+    }
+}
+
+// ------------------------------------------------------------------------------------------------------------------
+// layer 1: sequential, model based, real crate
+// ------------------------------------------------------------------------------------------------------------------
+
+#[derive(Clone, Debug, Serialize, Deserialize)]
+enum SeqOp {
+    Acquire,
+    /// explicit `give_back_resource_pool_item` of the k-th held item
+    GiveBackItem(u16),
+    /// implicit give-back: the k-th held item goes out of scope
+    Drop(u16),
+    /// `give_back_resource(new resource of the current generation, current discriminant)`
+    RawFresh,
+    /// `give_back_resource(new resource built for an older generation g, g)` (truthful but late)
+    RawStale(u16),
+    /// what `compute_cache` does
+    Refresh,
+    ResetAvailable,
+    Count,
+}
+
+#[derive(Clone, Debug, Serialize, Deserialize)]
+struct SeqCase {
+    size: u8,
+    /// number of resources passed to `ResourcePool::new` = pick_index(initial, size + 1)
+    initial: u16,
+    ops: Vec<SeqOp>,
+}
+
+fn seq_op_strategy() -> impl Strategy<Value = SeqOp> {
+    prop_oneof![
+        6 => Just(SeqOp::Acquire),
+        3 => any::<u16>().prop_map(SeqOp::GiveBackItem),
+        3 => any::<u16>().prop_map(SeqOp::Drop),
+        3 => Just(SeqOp::Refresh),
+        1 => Just(SeqOp::RawFresh),
+        1 => any::<u16>().prop_map(SeqOp::RawStale),
+        1 => Just(SeqOp::ResetAvailable),
+        1 => Just(SeqOp::Count),
+    ]
+}
+
+fn seq_strategy() -> impl Strategy<Value = SeqCase> {
+    (
+        1u8..=4,
+        prop_oneof![2 => Just(0u16), 2 => Just(u16::MAX), 1 => any::<u16>()],
+        prop::collection::vec(seq_op_strategy(), 1..=24),
+    )
+        .prop_map(|(size, initial, ops)| SeqCase { size, initial, ops })
+}
+
+struct Held<'a> {
+    item: ResourcePoolItem<'a, Res>,
+    id: u32,
+    generation: u64,
+}
+
+fn seq_case(c: &SeqCase) -> Report {
+    let mut rep = Report::new();
+    let size = c.size.clamp(1, 8) as usize;
+    let shared = Arc::new(Shared::default());
+    let n0 = pick_index(c.initial, size + 1);
+    let initial: Vec<Res> = (0..n0).map(|_| shared.make(0)).collect();
+    let mut idle: VecDeque<(u32, u64)> = initial.iter().map(|r| (r.id, r.generation)).collect();
+    let pool = ResourcePool::new(size, initial);
+    let mut held: Vec<Held<'_>> = vec![];
+    let mut generation: u64 = 0;
+    let mut trace: Vec<String> = vec![];
+    let mut nontrivial = false;
+    rep.label(format!("seq:size={size}"));
+    rep.label(if n0 == 0 { "seq:initial-empty" } else if n0 == size { "seq:initial-full" } else { "seq:initial-partial" });
+
+    // the scripted ops, then every item still held goes out of scope (implicit give-back)
+    let mut queue: VecDeque<SeqOp> = c.ops.iter().cloned().collect();
+    let mut step = 0usize;
+    loop {
+        let op = match queue.pop_front() {
+            Some(op) => op,
+            None if !held.is_empty() => SeqOp::Drop(0),
+            None => break,
+        };
+        step += 1;
+        macro_rules! fail {
+            ($key:expr, $($what:tt)*) => {{
+                rep.violation($key, format!("step {step} {op:?}: {} | size={size} initial={n0} generation={generation} trace={}", format!($($what)*), trace.join(" ")));
+                if nontrivial { rep.nontrivial(format!("{size}/{n0}/{}", trace.join(" "))); }
+                rep.labels.sort();
+                rep.labels.dedup();
+                return rep;
+            }};
+        }
+        // classify + run one give-back through `path`; returns whether the resource was admitted
+        macro_rules! give_back {
+            ($path:expr, $id:expr, $res_gen:expr, $disc:expr, $call:expr) => {{
+                let (id, res_gen, disc): (u32, u64, u64) = ($id, $res_gen, $disc);
+                let stale = res_gen < generation;
+                let full = idle.len() >= size;
+                if generation > 0 && !full {
+                    nontrivial = true;
+                    rep.label("giveback-after-refresh-notfull");
+                    if stale {
+                        rep.label("stale-giveback-notfull");
+                        rep.label(format!("stale-giveback-notfull:{}", $path));
+                    }
+                }
+                if full {
+                    rep.label("giveback-when-full");
+                }
+                let result: anyhow::Result<()> = $call;
+                if let Err(e) = result {
+                    fail!(format!("unexpected-error:{}", $path), "give-back failed: {e:#}");
+                }
+                let admitted = !shared.is_dropped(id);
+                trace.push(format!("{}{}{}", $path, if stale { "~" } else { "" }, if admitted { "+" } else { "-" }));
+                if admitted && stale {
+                    fail!(
+                        stale_key("readmit", Some(($path, disc)), res_gen),
+                        "resource #{id} of generation {res_gen} (returned with discriminant {disc}) was re-admitted while the pool is at generation {generation}"
+                    );
+                }
+                if admitted && full {
+                    fail!("overfill:sequential", "resource #{id} admitted into a full pool");
+                }
+                if !admitted && !stale && !full {
+                    fail!(format!("doc:fresh-rejected:{}", $path), "resource #{id} of the current generation {generation} was rejected although the pool holds {} < {size}", idle.len());
+                }
+                if admitted {
+                    idle.push_back((id, res_gen));
+                }
+            }};
+        }
+        match op.clone() {
+            SeqOp::Acquire => {
+                let expect = idle.front().copied();
+                match (pool.acquire_resource(Duration::from_millis(1)), expect) {
+                    (Ok(item), Some((eid, egen))) => {
+                        let (id, res_gen, disc) = (item.id, item.generation, item.discriminant());
+                        trace.push(format!("A{res_gen}"));
+                        if res_gen < generation {
+                            fail!(stale_key("served", None, res_gen), "acquire handed out resource #{id} of generation {res_gen} (item discriminant {disc}) at generation {generation}");
+                        }
+                        if (id, res_gen) != (eid, egen) {
+                            fail!("doc:fifo-order", "acquire handed out #{id} (gen {res_gen}), the FIFO model expected #{eid} (gen {egen})");
+                        }
+                        if disc != generation {
+                            fail!("doc:item-discriminant", "item discriminant {disc} differs from the pool generation {generation}");
+                        }
+                        idle.pop_front();
+                        held.push(Held { item, id, generation: res_gen });
+                        rep.label("seq:acquire-ok");
+                    }
+                    (Ok(item), None) => {
+                        fail!("acquire-on-empty-succeeded", "acquire returned #{} although the model pool is empty", item.id);
+                    }
+                    (Err(e), Some(_)) => fail!("acquire-nonempty-failed", "acquire failed on a non-empty pool: {e:#}"),
+                    (Err(e), None) => {
+                        trace.push("A!".into());
+                        rep.label("seq:acquire-empty-timeout");
+                        if !matches!(e.downcast_ref::<ResourcePoolError>(), Some(ResourcePoolError::AcquireTimeout)) {
+                            fail!("doc:acquire-empty-wrong-error", "acquire on an empty pool ended with {e:#} instead of AcquireTimeout");
+                        }
+                    }
+                }
+            }
+            SeqOp::GiveBackItem(raw) => {
+                if held.is_empty() {
+                    rep.label("seq:skip-nothing-held");
+                    continue;
+                }
+                let h = held.remove(pick_index(raw, held.len()));
+                let disc = h.item.discriminant();
+                give_back!("give_back_item", h.id, h.generation, disc, pool.give_back_resource_pool_item(h.item));
+            }
+            SeqOp::Drop(raw) => {
+                if held.is_empty() {
+                    rep.label("seq:skip-nothing-held");
+                    continue;
+                }
+                let h = held.remove(pick_index(raw, held.len()));
+                let disc = h.item.discriminant();
+                give_back!("drop", h.id, h.generation, disc, {
+                    drop(h.item);
+                    Ok(())
+                });
+            }
+            SeqOp::RawFresh => {
+                let d = match pool.discriminant() {
+                    Ok(d) => d,
+                    Err(e) => fail!("unexpected-error:discriminant", "{e:#}"),
+                };
+                if d != generation {
+                    fail!("doc:discriminant", "pool discriminant {d}, expected {generation}");
+                }
+                let res = shared.make(d);
+                let id = res.id;
+                give_back!("raw", id, d, d, pool.give_back_resource(res, d));
+            }
+            SeqOp::RawStale(raw) => {
+                if generation == 0 {
+                    rep.label("seq:skip-no-older-generation");
+                    continue;
+                }
+                let g = pick_index(raw, generation as usize) as u64;
+                let res = shared.make(g);
+                let id = res.id;
+                give_back!("raw", id, g, g, pool.give_back_resource(res, g));
+            }
+            SeqOp::Refresh => {
+                // exactly the caller's sequence (mithril-aggregator/src/services/prover.rs, compute_cache)
+                let d_new = match pool.discriminant() {
+                    Ok(d) => d + 1,
+                    Err(e) => fail!("unexpected-error:discriminant", "{e:#}"),
+                };
+                generation += 1;
+                if d_new != generation {
+                    fail!("doc:discriminant", "pool discriminant+1 = {d_new}, expected {generation}");
+                }
+                if let Err(e) = pool.set_discriminant(d_new) {
+                    fail!("unexpected-error:set_discriminant", "{e:#}");
+                }
+                pool.clear();
+                idle.clear();
+                trace.push(format!("R{generation}"));
+                for _ in 0..pool.size() {
+                    let res = shared.make(d_new);
+                    let id = res.id;
+                    if let Err(e) = pool.give_back_resource(res, d_new) {
+                        fail!("unexpected-error:refill", "{e:#}");
+                    }
+                    if shared.is_dropped(id) {
+                        fail!("doc:refill-rejected", "refill resource #{id} of generation {d_new} rejected, pool holds {}", idle.len());
+                    }
+                    idle.push_back((id, d_new));
+                }
+                rep.label(if held.is_empty() { "seq:refresh-nothing-out" } else { "seq:refresh-with-items-out" });
+            }
+            SeqOp::ResetAvailable => {
+                if let Err(e) = pool.reset_available_resources() {
+                    fail!("unexpected-error:reset_available", "{e:#}");
+                }
+                trace.push("Z".into());
+            }
+            SeqOp::Count => trace.push("C".into()),
+        }
+        // after every op
+        let n = match pool.count() {
+            Ok(n) => n,
+            Err(e) => fail!("unexpected-error:count", "{e:#}"),
+        };
+        if n > size {
+            fail!("overfill:sequential", "pool holds {n} > size {size}");
+        }
+        if n != idle.len() {
+            fail!("doc:count", "count() = {n}, model holds {}", idle.len());
+        }
+        if let Some((id, g)) = idle.iter().find(|(_, g)| *g != generation) {
+            // cannot happen without one of the violations above; kept as a guard of the harness' own bookkeeping
+            fail!("stale-idle", "idle resource #{id} of generation {g} at generation {generation}");
+        }
+    }
+    if nontrivial {
+        rep.nontrivial(format!("{size}/{n0}/{}", trace.join(" ")));
+    }
+    rep.labels.sort();
+    rep.labels.dedup();
+    rep
+}
+
+/// F14 witness: acquire under generation 0, refresh, acquire one fresh resource (pool not full), explicit give-back
+fn witness_give_back_item() -> bool {
+    let c = SeqCase {
+        size: 1,
+        initial: u16::MAX,
+        ops: vec![SeqOp::Acquire, SeqOp::Refresh, SeqOp::Acquire, SeqOp::GiveBackItem(0)],
+    };
+    matches!(seq_case(&c).outcome, vcore::Outcome::Violation { ref key, .. } if key == KEY_F14)
+}
+
+const KEY_F14: &str = "stale:item-disc-own:give_back_item:readmit";
+
+// ------------------------------------------------------------------------------------------------------------------
+// layer 2: schedules (shuttle)
+// ------------------------------------------------------------------------------------------------------------------
+
+/// The working tree's `resource_pool.rs`, rewritten by build.rs to use [`shim`].
+#[cfg(c18_rewrite_ok)]
+#[allow(dead_code, unused_imports, missing_docs, clippy::all)]
+mod pool_sh {
+    include!(concat!(env!("OUT_DIR"), "/pool_shuttle.rs"));
+}
+
+const REWRITE_STATUS: &str = include_str!(concat!(env!("OUT_DIR"), "/rewrite_status.txt"));
+
+/// Drop-in replacements for `std::sync::{Mutex, Condvar}` inside the rewritten source.
+#[cfg(c18_rewrite_ok)]
+pub mod shim {
+    use std::cell::RefCell;
+    use std::sync::{Arc, PoisonError};
+    use std::time::Duration;
+
+    pub use shuttle::sync::{Mutex, MutexGuard};
+
+    struct Waiter {
+        wid: u32,
+        cv: Arc<shuttle::sync::Condvar>,
+        can_time_out: bool,
+    }
+
+    /// Per-execution registry of the tasks blocked in a condvar wait. A std thread-local on purpose: all tasks of a
+    /// shuttle execution are coroutines of the OS thread that called `Runner::run`. Never borrowed across a shuttle
+    /// scheduling point.
+    #[derive(Default)]
+    struct ExecCtx {
+        next_wid: u32,
+        waiters: Vec<Waiter>,
+        fired: Option<u32>,
+        waits: u32,
+        timeouts: u32,
+        waits_by_task: std::collections::BTreeMap<usize, u32>,
+    }
+
+    thread_local! {
+        static CTX: RefCell<ExecCtx> = RefCell::new(ExecCtx::default());
+    }
+
+    pub fn reset() {
+        CTX.with(|c| *c.borrow_mut() = ExecCtx::default());
+    }
+    /// (number of condvar waits, number of modelled timeouts) so far in this execution
+    pub fn counters() -> (u32, u32) {
+        CTX.with(|c| {
+            let c = c.borrow();
+            (c.waits, c.timeouts)
+        })
+    }
+    /// number of condvar waits of the calling task so far
+    pub fn my_waits() -> u32 {
+        let me = shuttle::current::get_current_task().map(usize::from);
+        CTX.with(|c| me.and_then(|t| c.borrow().waits_by_task.get(&t).copied()).unwrap_or(0))
+    }
+    pub fn blocked_waiters() -> usize {
+        CTX.with(|c| c.borrow().waiters.len())
+    }
+
+    pub enum Fire {
+        /// the oldest waiter that can time out was told to; the caller must `notify_all` the returned condvar
+        Fired(Arc<shuttle::sync::Condvar>),
+        /// somebody waits, but without a timeout
+        OnlyUntimed,
+        NoWaiters,
+    }
+
+    /// Called by the timer task (which runs only when no other task can): time out the oldest timed waiter.
+    pub fn fire_oldest_timeout() -> Fire {
+        CTX.with(|c| {
+            let mut c = c.borrow_mut();
+            if c.waiters.is_empty() {
+                return Fire::NoWaiters;
+            }
+            match c.waiters.iter().find(|w| w.can_time_out).map(|w| (w.wid, w.cv.clone())) {
+                Some((wid, cv)) => {
+                    c.fired = Some(wid);
+                    c.timeouts += 1;
+                    Fire::Fired(cv)
+                }
+                None => Fire::OnlyUntimed,
+            }
+        })
+    }
+
+    fn register(cv: &Arc<shuttle::sync::Condvar>, can_time_out: bool) -> u32 {
+        CTX.with(|c| {
+            let mut c = c.borrow_mut();
+            let wid = c.next_wid;
+            c.next_wid += 1;
+            c.waits += 1;
+            if let Some(t) = shuttle::current::get_current_task() {
+                *c.waits_by_task.entry(usize::from(t)).or_insert(0) += 1;
+            }
+            c.waiters.push(Waiter { wid, cv: cv.clone(), can_time_out });
+            wid
+        })
+    }
+
+    /// remove the waiter; true = it was woken by the modelled timeout
+    fn unregister(wid: u32) -> bool {
+        CTX.with(|c| {
+            let mut c = c.borrow_mut();
+            c.waiters.retain(|w| w.wid != wid);
+            if c.fired == Some(wid) {
+                c.fired = None;
+                true
+            } else {
+                false
+            }
+        })
+    }
+
+    #[derive(Debug, PartialEq, Eq, Copy, Clone)]
+    pub struct WaitTimeoutResult(bool);
+
+    impl WaitTimeoutResult {
+        pub fn timed_out(&self) -> bool {
+            self.0
+        }
+    }
+
+    pub type LockResult<G> = Result<G, PoisonError<G>>;
+
+    /// `std::sync::Condvar` on top of shuttle's, with modelled timeouts (shuttle's own `wait_timeout` never times
+    /// out). A timeout of one waiter wakes the other waiters of the same condvar spuriously (`timed_out() == false`),
+    /// which `std` allows at any time.
+    #[derive(Debug, Default)]
+    pub struct Condvar {
+        inner: Arc<shuttle::sync::Condvar>,
+    }
+
+    #[allow(dead_code)]
+    impl Condvar {
+        pub fn new() -> Self {
+            Condvar { inner: Arc::new(shuttle::sync::Condvar::new()) }
+        }
+
+        pub fn notify_one(&self) {
+            self.inner.notify_one()
+        }
+
+        pub fn notify_all(&self) {
+            self.inner.notify_all()
+        }
+
+        pub fn wait<'a, T>(&self, guard: MutexGuard<'a, T>) -> LockResult<MutexGuard<'a, T>> {
+            let wid = register(&self.inner, false);
+            let r = self.inner.wait(guard);
+            unregister(wid);
+            r
+        }
+
+        pub fn wait_while<'a, T, F>(&self, mut guard: MutexGuard<'a, T>, mut condition: F) -> LockResult<MutexGuard<'a, T>>
+        where
+            F: FnMut(&mut T) -> bool,
+        {
+            while condition(&mut *guard) {
+                guard = self.wait(guard)?;
+            }
+            Ok(guard)
+        }
+
+        pub fn wait_timeout<'a, T>(
+            &self,
+            guard: MutexGuard<'a, T>,
+            _dur: Duration,
+        ) -> LockResult<(MutexGuard<'a, T>, WaitTimeoutResult)> {
+            let wid = register(&self.inner, true);
+            let r = self.inner.wait(guard);
+            let timed_out = unregister(wid);
+            match r {
+                Ok(g) => Ok((g, WaitTimeoutResult(timed_out))),
+                Err(p) => Err(PoisonError::new((p.into_inner(), WaitTimeoutResult(timed_out)))),
+            }
+        }
+
+        pub fn wait_timeout_while<'a, T, F>(
+            &self,
+            mut guard: MutexGuard<'a, T>,
+            dur: Duration,
+            mut condition: F,
+        ) -> LockResult<(MutexGuard<'a, T>, WaitTimeoutResult)>
+        where
+            F: FnMut(&mut T) -> bool,
+        {
+            while condition(&mut *guard) {
+                let (g, t) = self.wait_timeout(guard, dur)?;
+                guard = g;
+                if t.timed_out() {
+                    let still = condition(&mut *guard);
+                    return Ok((guard, WaitTimeoutResult(still)));
+                }
+            }
+            Ok((guard, WaitTimeoutResult(false)))
+        }
+    }
+}
+
+#[derive(Clone, Debug, Serialize, Deserialize)]
+enum COp {
+    Acquire,
+    GiveBackItem(u16),
+    Drop(u16),
+    /// only meaningful in the refresher's script
+    Refresh,
+    RawFresh,
+    RawStale(u16),
+    ResetAvailable,
+    Count,
+}
+
+#[derive(Clone, Debug, Serialize, Deserialize)]
+struct ConcCase {
+    size: u8,
+    initial_full: bool,
+    /// script of the single thread that refreshes the cache (assumption: refreshes never overlap each other)
+    refresher: Vec<COp>,
+    /// scripts of the 1–3 other threads
+    users: Vec<Vec<COp>>,
+    /// scheduling choices, consumed at every point where more than one thread can move:
+    /// candidates = [running thread, other runnable threads by id]; next = candidates[choice % len]; exhausted = 0
+    choices: Vec<u8>,
+}
+
+fn cop_strategy(refresher: bool, extras: bool) -> impl Strategy<Value = COp> {
+    let mut options: Vec<(u32, BoxedStrategy<COp>)> = vec![
+        (8, Just(COp::Acquire).boxed()),
+        (4, any::<u16>().prop_map(COp::GiveBackItem).boxed()),
+        (3, any::<u16>().prop_map(COp::Drop).boxed()),
+        (1, any::<u16>().prop_map(COp::RawStale).boxed()),
+        (1, Just(COp::ResetAvailable).boxed()),
+        (1, Just(COp::Count).boxed()),
+    ];
+    if refresher {
+        options.push((6, Just(COp::Refresh).boxed()));
+    }
+    if extras {
+        options.push((2, Just(COp::RawFresh).boxed()));
+    }
+    proptest::strategy::Union::new_weighted(options)
+}
+
+fn conc_strategy() -> impl Strategy<Value = ConcCase> {
+    // extras = scripts may give back additional brand-new current-generation resources (public API, but not something
+    // the aggregator does outside compute_cache): one case in four
+    (prop_oneof![3 => Just(false), 1 => Just(true)], prop_oneof![1 => Just(2u32), 2 => Just(5u32)]).prop_flat_map(
+        |(extras, zero_weight)| {
+            (
+                1u8..=3,
+                prop_oneof![3 => Just(true), 1 => Just(false)],
+                prop::collection::vec(cop_strategy(true, extras), 1..=5),
+                prop::collection::vec(prop::collection::vec(cop_strategy(false, extras), 1..=6), 1..=3),
+                prop::collection::vec(prop_oneof![zero_weight => Just(0u8), 3 => 1u8..=6], 0..=160),
+            )
+                .prop_map(|(size, initial_full, refresher, users, choices)| ConcCase {
+                    size,
+                    initial_full,
+                    refresher,
+                    users,
+                    choices,
+                })
+        },
+    )
+}
+
+#[cfg(c18_rewrite_ok)]
+mod conc {
+    use super::*;
+    use pool_sh::{ResourcePool as ShPool, ResourcePoolError as ShError, ResourcePoolItem as ShItem};
+    use shuttle::scheduler::{Schedule, Scheduler, Task, TaskId};
+    use std::sync::atomic::{AtomicBool, AtomicU64};
+
+    pub const TIMER: &str = "c18-timer";
+
+    impl pool_sh::Reset for Res {
+        fn reset(&mut self) -> anyhow::Result<()> {
+            self.resets += 1;
+            Ok(())
+        }
+    }
+
+    /// The schedule is data of the case.
+    pub struct ScriptSched {
+        choices: Vec<u8>,
+        pos: usize,
+        started: bool,
+        stats: Arc<SchedStats>,
+    }
+
+    #[derive(Default)]
+    pub struct SchedStats {
+        pub decisions: AtomicU32,
+        pub preemptions: AtomicU32,
+    }
+
+    impl ScriptSched {
+        pub fn new(choices: Vec<u8>, stats: Arc<SchedStats>) -> Self {
+            ScriptSched { choices, pos: 0, started: false, stats }
+        }
+    }
+
+    impl Scheduler for ScriptSched {
+        fn new_execution(&mut self) -> Option<Schedule> {
+            if self.started {
+                None
+            } else {
+                self.started = true;
+                self.pos = 0;
+                Some(Schedule::new(0))
+            }
+        }
+
+        fn next_task(&mut self, runnable: &[&Task], current: Option<TaskId>, _is_yielding: bool) -> Option<TaskId> {
+            let mut cands: Vec<TaskId> = Vec::with_capacity(runnable.len());
+            let mut timer = None;
+            for t in runnable {
+                if !t.runnable() {
+                    continue;
+                }
+                if t.name().as_deref() == Some(TIMER) {
+                    timer = Some(t.id());
+                } else {
+                    cands.push(t.id());
+                }
+            }
+            if cands.is_empty() {
+                // the timer runs only when nobody else can: "timeouts are long"
+                return timer.or_else(|| runnable.first().map(|t| t.id()));
+            }
+            cands.sort_by_key(|t| usize::from(*t));
+            if let Some(cur) = current {
+                if let Some(i) = cands.iter().position(|t| *t == cur) {
+                    let c = cands.remove(i);
+                    cands.insert(0, c);
+                }
+            }
+            if cands.len() == 1 {
+                return Some(cands[0]);
+            }
+            let c = self.choices.get(self.pos).copied().unwrap_or(0) as usize % cands.len();
+            self.pos += 1;
+            self.stats.decisions.fetch_add(1, Ordering::Relaxed);
+            if c != 0 && current == Some(cands[0]) {
+                self.stats.preemptions.fetch_add(1, Ordering::Relaxed);
+            }
+            Some(cands[c])
+        }
+
+        fn next_u64(&mut self) -> u64 {
+            0
+        }
+    }
+
+    /// what one execution reports back (std primitives, shared by all tasks of the execution)
+    #[derive(Default)]
+    pub struct ConcState {
+        /// highest generation whose refresh (set_discriminant, clear, refill) has completed
+        completed_gen: AtomicU64,
+        done: AtomicU32,
+        extras_used: AtomicBool,
+        finished: AtomicBool,
+        trace: StdMutex<Vec<String>>,
+        labels: StdMutex<BTreeSet<String>>,
+        violations: StdMutex<Vec<(String, String)>>,
+        nontrivial: AtomicBool,
+        /// resource id -> (path, discriminant) of the last give-back that admitted it
+        admits: StdMutex<std::collections::BTreeMap<u32, (String, u64)>>,
+    }
+
+    impl ConcState {
+        fn label(&self, l: impl Into<String>) {
+            self.labels.lock().unwrap().insert(l.into());
+        }
+        fn ev(&self, e: String) {
+            self.trace.lock().unwrap().push(e);
+        }
+        fn violation(&self, key: impl Into<String>, what: String) {
+            self.violations.lock().unwrap().push((key.into(), what));
+        }
+        fn completed(&self) -> u64 {
+            self.completed_gen.load(Ordering::SeqCst)
+        }
+        fn stale_key(&self, symptom: &str, id: u32, res_gen: u64) -> String {
+            let a = self.admits.lock().unwrap().get(&id).cloned();
+            stale_key(symptom, a.as_ref().map(|(p, d)| (p.as_str(), *d)), res_gen)
+        }
+    }
+
+    struct HeldSh<'a> {
+        item: ShItem<'a, Res>,
+        id: u32,
+        generation: u64,
+    }
+
+    struct Worker<'a> {
+        tid: usize,
+        size: usize,
+        pool: &'a ShPool<Res>,
+        shared: &'a Arc<Shared>,
+        st: &'a ConcState,
+        held: Vec<HeldSh<'a>>,
+    }
+
+    impl<'a> Worker<'a> {
+        fn count(&self, at: &str) -> usize {
+            match self.pool.count() {
+                Ok(n) => {
+                    if n > self.size {
+                        let key = if self.st.extras_used.load(Ordering::SeqCst) {
+                            "overfill:with-extra-give-back"
+                        } else {
+                            "overfill:concurrent"
+                        };
+                        self.st.violation(key, format!("t{} {at}: count() = {n} > size {}", self.tid, self.size));
+                    }
+                    n
+                }
+                Err(e) => {
+                    self.st.violation("unexpected-error:count", format!("t{} {at}: {e:#}", self.tid));
+                    0
+                }
+            }
+        }
+
+        /// one give-back through `path`; `call` performs it
+        fn give_back(&self, path: &str, id: u32, res_gen: u64, disc: u64, call: impl FnOnce() -> anyhow::Result<()>) {
+            let c0 = self.st.completed();
+            let n0 = self.count(path);
+            let stale = res_gen < c0;
+            if c0 > 0 && n0 < self.size {
+                self.st.nontrivial.store(true, Ordering::SeqCst);
+                self.st.label("giveback-after-refresh-notfull");
+                if stale {
+                    self.st.label("stale-giveback-notfull");
+                    self.st.label(format!("stale-giveback-notfull:{path}"));
+                }
+            }
+            if let Err(e) = call() {
+                self.st.violation(format!("unexpected-error:{path}"), format!("t{}: {e:#}", self.tid));
+            }
+            let admitted = !self.shared.is_dropped(id);
+            self.st.ev(format!("t{}:{path}{}{}", self.tid, if stale { "~" } else { "" }, if admitted { "+" } else { "-" }));
+            if admitted {
+                self.st.admits.lock().unwrap().insert(id, (path.to_string(), disc));
+            }
+            if admitted && stale {
+                self.st.violation(
+                    stale_key("readmit", Some((path, disc)), res_gen),
+                    format!(
+                        "t{}: resource #{id} of generation {res_gen} (returned with discriminant {disc}) was re-admitted by a give-back that started after the refresh to generation {c0} had completed",
+                        self.tid
+                    ),
+                );
+            }
+            self.count(path);
+        }
+
+        fn run(&mut self, ops: &[COp], may_refresh: bool) {
+            for op in ops {
+                match op {
+                    COp::Acquire => {
+                        let c0 = self.st.completed();
+                        let waits0 = shim::my_waits();
+                        match self.pool.acquire_resource(Duration::from_millis(1000)) {
+                            Ok(item) => {
+                                let (id, g, disc) = (item.id, item.generation, item.discriminant());
+                                self.st.ev(format!("t{}:A{g}", self.tid));
+                                if shim::my_waits() > waits0 {
+                                    self.st.label("acquire-blocked-then-served");
+                                }
+                                if g < c0 {
+                                    self.st.violation(
+                                        self.st.stale_key("served", id, g),
+                                        format!(
+                                            "t{}: an acquire that started after the refresh to generation {c0} had completed handed out resource #{id} of generation {g} (item discriminant {disc})",
+                                            self.tid
+                                        ),
+                                    );
+                                }
+                                self.held.push(HeldSh { item, id, generation: g });
+                            }
+                            Err(e) => {
+                                self.st.ev(format!("t{}:A!", self.tid));
+                                self.st.label("acquire-timed-out");
+                                if !matches!(e.downcast_ref::<ShError>(), Some(ShError::AcquireTimeout)) {
+                                    self.st.violation("unexpected-error:acquire", format!("t{}: {e:#}", self.tid));
+                                }
+                            }
+                        }
+                    }
+                    COp::GiveBackItem(raw) => {
+                        if self.held.is_empty() {
+                            continue;
+                        }
+                        let h = self.held.remove(pick_index(*raw, self.held.len()));
+                        let disc = h.item.discriminant();
+                        let pool = self.pool;
+                        self.give_back("give_back_item", h.id, h.generation, disc, move || {
+                            pool.give_back_resource_pool_item(h.item)
+                        });
+                    }
+                    COp::Drop(raw) => {
+                        if self.held.is_empty() {
+                            continue;
+                        }
+                        let h = self.held.remove(pick_index(*raw, self.held.len()));
+                        self.drop_item(h);
+                    }
+                    COp::Refresh => {
+                        if !may_refresh {
+                            continue;
+                        }
+                        // the caller's sequence (compute_cache)
+                        let pool = self.pool;
+                        let d_new = match pool.discriminant() {
+                            Ok(d) => d + 1,
+                            Err(e) => {
+                                self.st.violation("unexpected-error:discriminant", format!("{e:#}"));
+                                continue;
+                            }
+                        };
+                        self.st.ev(format!("t{}:R{d_new}(", self.tid));
+                        if let Err(e) = pool.set_discriminant(d_new) {
+                            self.st.violation("unexpected-error:set_discriminant", format!("{e:#}"));
+                        }
+                        pool.clear();
+                        for _ in 0..pool.size() {
+                            let res = self.shared.make(d_new);
+                            if let Err(e) = pool.give_back_resource(res, d_new) {
+                                self.st.violation("unexpected-error:refill", format!("{e:#}"));
+                            }
+                        }
+                        self.st.completed_gen.store(d_new, Ordering::SeqCst);
+                        self.st.ev(format!("t{}:R{d_new})", self.tid));
+                        self.st.label("refresh");
+                        self.count("refresh");
+                    }
+                    COp::RawFresh => {
+                        let pool = self.pool;
+                        let d = match pool.discriminant() {
+                            Ok(d) => d,
+                            Err(e) => {
+                                self.st.violation("unexpected-error:discriminant", format!("{e:#}"));
+                                continue;
+                            }
+                        };
+                        self.st.extras_used.store(true, Ordering::SeqCst);
+                        let res = self.shared.make(d);
+                        let id = res.id;
+                        self.give_back("raw", id, d, d, move || pool.give_back_resource(res, d));
+                    }
+                    COp::RawStale(raw) => {
+                        let c0 = self.st.completed();
+                        if c0 == 0 {
+                            continue;
+                        }
+                        let g = pick_index(*raw, c0 as usize) as u64;
+                        let pool = self.pool;
+                        let res = self.shared.make(g);
+                        let id = res.id;
+                        self.give_back("raw", id, g, g, move || pool.give_back_resource(res, g));
+                    }
+                    COp::ResetAvailable => {
+                        if let Err(e) = self.pool.reset_available_resources() {
+                            self.st.violation("unexpected-error:reset_available", format!("{e:#}"));
+                        }
+                        self.st.ev(format!("t{}:Z", self.tid));
+                    }
+                    COp::Count => {
+                        let n = self.count("count");
+                        self.st.ev(format!("t{}:C{n}", self.tid));
+                    }
+                }
+            }
+            // end of scope: every item still held is given back implicitly
+            while let Some(h) = self.held.pop() {
+                self.drop_item(h);
+            }
+        }
+
+        fn drop_item(&self, h: HeldSh<'a>) {
+            let disc = h.item.discriminant();
+            self.give_back("drop", h.id, h.generation, disc, move || {
+                drop(h.item);
+                Ok(())
+            });
+        }
+    }
+
+    /// body of one shuttle execution
+    fn execution(c: &ConcCase, st: &Arc<ConcState>) {
+        shim::reset();
+        let size = c.size.clamp(1, 8) as usize;
+        let shared = Arc::new(Shared::default());
+        let initial: Vec<Res> = if c.initial_full { (0..size).map(|_| shared.make(0)).collect() } else { vec![] };
+        let pool = Arc::new(ShPool::new(size, initial));
+        let scripts: Vec<(Vec<COp>, bool)> =
+            std::iter::once((c.refresher.clone(), true)).chain(c.users.iter().cloned().map(|u| (u, false))).collect();
+        let n_workers = scripts.len() as u32;
+        let mut handles = vec![];
+        for (tid, (ops, may_refresh)) in scripts.into_iter().enumerate() {
+            let (pool, shared, st) = (pool.clone(), shared.clone(), st.clone());
+            let h = shuttle::thread::Builder::new()
+                .name(format!("w{tid}"))
+                .spawn(move || {
+                    {
+                        let mut w = Worker { tid, size, pool: &pool, shared: &shared, st: &st, held: vec![] };
+                        w.run(&ops, may_refresh);
+                    }
+                    st.done.fetch_add(1, Ordering::SeqCst);
+                })
+                .expect("spawn");
+            handles.push(h);
+        }
+        // the timer: scheduled only when no other task is runnable
+        let timer = {
+            let (pool, st) = (pool.clone(), st.clone());
+            shuttle::thread::Builder::new()
+                .name(TIMER.to_string())
+                .spawn(move || {
+                    loop {
+                        shuttle::thread::yield_now();
+                        if st.done.load(Ordering::SeqCst) == n_workers {
+                            break;
+                        }
+                        let blocked = shim::blocked_waiters();
+                        if blocked > 0 {
+                            // everybody who is not finished is blocked: nobody is about to wake these waiters
+                            let n = pool.count().unwrap_or(0);
+                            if n > 0 {
+                                st.violation(
+                                    "lost-wakeup",
+                                    format!("{blocked} caller(s) blocked in acquire although the pool holds {n} resource(s) and no other thread can move"),
+                                );
+                            }
+                        }
+                        match shim::fire_oldest_timeout() {
+                            shim::Fire::Fired(cv) => {
+                                st.label("timeout-fired");
+                                cv.notify_all();
+                            }
+                            shim::Fire::OnlyUntimed | shim::Fire::NoWaiters => {
+                                st.violation(
+                                    "deadlock",
+                                    format!("no thread can move, {} of {n_workers} finished, {blocked} blocked in an untimed wait", st.done.load(Ordering::SeqCst)),
+                                );
+                                panic!("c18: deadlock");
+                            }
+                        }
+                    }
+                })
+                .expect("spawn")
+        };
+        for h in handles {
+            h.join().expect("worker");
+        }
+        timer.join().expect("timer");
+
+        // final state: not more than `size`, and only resources of the last generation
+        let last = st.completed();
+        let n = pool.count().unwrap_or(0);
+        if n > size {
+            let key = if st.extras_used.load(Ordering::SeqCst) { "overfill:with-extra-give-back" } else { "overfill:concurrent" };
+            st.violation(key, format!("end: count() = {n} > size {size}"));
+        }
+        let mut drained = vec![];
+        for _ in 0..n {
+            match pool.acquire_resource(Duration::from_millis(1000)) {
+                Ok(item) => {
+                    if item.generation != last {
+                        st.violation(
+                            st.stale_key("in-pool-at-end", item.id, item.generation),
+                            format!("after all threads finished the pool holds resource #{} of generation {} while the last completed refresh is generation {last}", item.id, item.generation),
+                        );
+                    }
+                    drained.push(item);
+                }
+                Err(e) => st.violation("unexpected-error:drain", format!("{e:#}")),
+            }
+        }
+        let (waits, timeouts) = shim::counters();
+        if waits > 0 {
+            st.label("some-acquire-blocked");
+        }
+        let _ = timeouts;
+        drop(drained);
+        st.finished.store(true, Ordering::SeqCst);
+    }
+
+    pub fn conc_case(c: &ConcCase) -> Report {
+        let mut rep = Report::new();
+        if c.users.is_empty() || c.users.iter().any(|u| u.iter().any(|o| matches!(o, COp::Refresh))) {
+            rep.discard("refresh outside the refresher thread / no user thread");
+            return rep;
+        }
+        let st = Arc::new(ConcState::default());
+        let stats = Arc::new(SchedStats::default());
+        let sched = ScriptSched::new(c.choices.clone(), stats.clone());
+        let mut cfg = shuttle::Config::new();
+        cfg.stack_size = 0x40000;
+        cfg.failure_persistence = shuttle::FailurePersistence::None;
+        cfg.max_steps = shuttle::MaxSteps::FailAfter(50_000);
+        cfg.silence_warnings = true;
+        let runner = shuttle::Runner::new(sched, cfg);
+        let (case, st2) = (Arc::new(c.clone()), st.clone());
+        let outcome = catch(move || runner.run(move || execution(&case, &st2)));
+
+        let threads = 1 + c.users.len();
+        rep.label(format!("conc:threads={threads}"));
+        rep.label(format!("conc:size={}", c.size));
+        let pre = stats.preemptions.load(Ordering::Relaxed);
+        rep.label(format!("conc:preemptions={}", match pre { 0 => "0", 1 => "1", 2 => "2", 3..=5 => "3-5", 6..=15 => "6-15", _ => "16+" }));
+        if stats.decisions.load(Ordering::Relaxed) as usize > c.choices.len() {
+            rep.label("conc:choices-exhausted");
+        }
+        for l in st.labels.lock().unwrap().iter() {
+            rep.label(l.clone());
+        }
+        let trace = st.trace.lock().unwrap().join(" ");
+        if st.nontrivial.load(Ordering::SeqCst) {
+            rep.nontrivial(format!("{}/{}/{trace}", c.size, c.initial_full));
+        }
+        let violations = st.violations.lock().unwrap().clone();
+        if let Some((key, what)) = violations.first() {
+            rep.violation(key.clone(), format!("{what} | size={} initial_full={} trace={trace}", c.size, c.initial_full));
+            return rep;
+        }
+        match outcome {
+            Ok(_) if st.finished.load(Ordering::SeqCst) => {}
+            Ok(_) => {
+                rep.violation("harness:execution-did-not-finish", format!("trace={trace}"));
+            }
+            Err(msg) if msg.contains("exceeded max_steps") => {
+                rep.discard("step bound");
+            }
+            Err(msg) => {
+                let loc = msg.rsplit(" @ ").next().unwrap_or("").to_string();
+                rep.violation(format!("panic:{loc}"), format!("panic inside the schedule: {msg} | trace={trace}"));
+            }
+        }
+        rep
+    }
+
+    /// Witness of a schedule-dependent finding: a fixed tiny script, and a fixed deterministic list of interleavings
+    /// (not a recorded one, so that it keeps working when the number of scheduling points of the source changes).
+    pub fn some_schedule_violates(base: &ConcCase, key_prefix: &str) -> bool {
+        for i in 0..4000u64 {
+            let mut c = base.clone();
+            let mut x = vcore::mix(0xC18, i);
+            c.choices = (0..48)
+                .map(|_| {
+                    x = vcore::mix(x, 1);
+                    if x % 3 == 0 { ((x >> 8) % 4) as u8 } else { 0 }
+                })
+                .collect();
+            if let vcore::Outcome::Violation { key, .. } = conc_case(&c).outcome {
+                if key.starts_with(key_prefix) {
+                    return true;
+                }
+            }
+        }
+        false
+    }
+
+    /// an acquire that overlaps the refresh, a second acquire (pool not full), then the first item goes out of scope
+    pub fn witness_refresh_not_atomic() -> bool {
+        let base = ConcCase {
+            size: 1,
+            initial_full: true,
+            refresher: vec![COp::Refresh],
+            users: vec![vec![COp::Acquire, COp::Acquire, COp::Drop(0)]],
+            choices: vec![],
+        };
+        some_schedule_violates(&base, "stale:item-disc-newer:")
+    }
+
+    /// an item acquired around the refresh is returned while the refill is in progress
+    pub fn witness_overfill() -> bool {
+        let base = ConcCase {
+            size: 1,
+            initial_full: true,
+            refresher: vec![COp::Refresh],
+            users: vec![vec![COp::Acquire, COp::GiveBackItem(0)]],
+            choices: vec![],
+        };
+        some_schedule_violates(&base, "overfill:concurrent")
+    }
+}
+
+// ------------------------------------------------------------------------------------------------------------------
 
 pub fn run(args: &Args) -> i32 {
-    let check = Check::new("C18", "exploration", args);
-    check.inconclusive("check not implemented yet".into());
+    let mut check = Check::new("C18", "exploration", args);
+    check
+        .rule(
+            "sequences: random op sequences (acquire / explicit give-back / drop / raw give-back of a new fresh or stale \
+             resource / refresh = the caller's set_discriminant+clear+refill / reset / count) over pool sizes 1-4 on the real \
+             crate, checked against a FIFO model; schedules: 2-4 threads (one refresher) running such scripts on the \
+             shuttle-compiled working-tree source under a generated interleaving (choice vector), timeouts modelled as \
+             'fire only when nobody else can move'. Non-trivial = a give-back happens after a refresh while the pool is not \
+             full; distinct = distinct (size, initial fill, op/outcome trace in execution order).",
+        )
+        .assume("refreshes of one pool never overlap each other (one compute_cache at a time per prover service)")
+        .assume("callers are truthful: give_back_resource(r, d) is only called with the discriminant r was built for; ResourcePool::new gets at most `size` resources")
+        .assume("layer 2 trusts shuttle 0.9.3's Mutex/Condvar semantics and explores sequentially-consistent interleavings at lock/unlock/wait/notify granularity; timeouts fire only at quiescence")
+        .require_label("giveback-after-refresh-notfull")
+        .require_label("stale-giveback-notfull")
+        .require_label("stale-giveback-notfull:give_back_item")
+        .require_label("stale-giveback-notfull:drop")
+        .require_label("seq:acquire-empty-timeout");
+    let t = check.tier;
+
+    check.witness(KEY_F14, "give_back_resource_pool_item re-admits a resource checked out before a refresh", witness_give_back_item);
+
+    check.section("sequences", seq_strategy, t.pick(50_000, 2_000_000), seq_case);
+
+    #[cfg(c18_rewrite_ok)]
+    {
+        check.require_label("acquire-blocked-then-served").require_label("timeout-fired").require_label("refresh");
+        check.witness(
+            "stale:item-disc-newer:drop:readmit",
+            "an acquire overlapping set_discriminant/clear labels an old resource with the new discriminant; it is re-admitted after the refresh",
+            conc::witness_refresh_not_atomic,
+        );
+        check.witness(
+            "overfill:concurrent",
+            "count()==size is tested before the lock is taken: a give-back racing with the refill overfills the pool",
+            conc::witness_overfill,
+        );
+        check.section("schedules", conc_strategy, t.pick(100_000, 4_000_000), conc::conc_case);
+    }
+    #[cfg(not(c18_rewrite_ok))]
+    {
+        let _ = conc_strategy;
+        check.inconclusive(format!("layer 2 disabled, the sync imports of resource_pool.rs could not be rewritten: {REWRITE_STATUS}"));
+    }
+    let _ = REWRITE_STATUS;
     check.finish()
 }
